@@ -228,6 +228,8 @@ pub struct Shadow {
     pub dtor_stack: Vec<(usize, usize)>,
     /// raise signal 7 when a cascade reclaims a node at this depth (0 = off)
     pub signal_depth: u32,
+    /// raise signal 9 when pop_edges of an object of this rank class starts (0 = off)
+    pub signal_pop_class: u32,
     pub debug_watch: Option<u32>,
     pub debug_last: u64,
     pub watch_obj: Option<u32>,
@@ -295,6 +297,7 @@ impl Shadow {
             plocal: Vec::new(),
             dtor_stack: Vec::new(),
             signal_depth: 0,
+            signal_pop_class: 0,
             debug_watch: std::env::var("VERIF_WATCH").ok().and_then(|s| s.parse().ok()),
             debug_last: 0,
             watch_obj: None,
@@ -519,6 +522,10 @@ impl Shadow {
         if (o as usize) < self.objs.len() && !self.objs[o as usize].registered {
             // destructed before the creating call returned (zero-owner bulk constructors)
             self.register(o, block, state_addr, cells, 0);
+        }
+        if self.signal_pop_class != 0 && (o as usize) < self.objs.len() && (self.objs[o as usize].rank >> 48) as u32 == self.signal_pop_class {
+            sim().raise_signal(9);
+            sim().probe("pop_edges_signal");
         }
         let (depth, epoch) = match self.last_reclaim_now.take() {
             Some((block, depth, curr)) if block == self.objs[o as usize].addr => (depth as i64, curr as u64),
